@@ -262,6 +262,10 @@ func UnmarshalYAML(bs []byte, v interface{}) error {
 }
 
 func Unmarshal(bs []byte, v interface{}) error {
+	if len(bs) == 0 {
+		// Say "fact=" in a query string.
+		return UnknownSyntax
+	}
 	if bs[0] == '{' {
 		return json.Unmarshal(bs, v)
 	}
